@@ -231,7 +231,19 @@ class Sess:
         if self.beh == "stray_drop":
             return out  # strays only, the genuine reply is lost: the call must time out
         if v3 and req.m["usm"]["engine_id"] == b"":
-            # discovery
+            # discovery.  Sometimes datagrams from a *foreign* engine that fail one header field (msgID,
+            # user name; not the request-id, which the client deliberately ignores on Reports) arrive first: they are skipped, so they must leave no trace - the
+            # engine id is learnt from the Report that is accepted, not from whatever arrives first.
+            if self.rng.random() < self.k.get("open_stray", 0.3):
+                fe = bytes([0x80, 0, 0xC0, 0xDE] + [self.rng.randrange(256) for _ in range(self.rng.choice([1, 4, 8, 13]))])
+                sb, stm = self.new_ident()
+                for _ in range(self.rng.randint(1, 2)):
+                    how = self.rng.choice(["msg_id", "user"])
+                    ov = {"msg_id": {"msg_id": (req.m["msg_id"] + self.rng.choice([1, -1, 7])) & 0x7FFFFFFF},
+                          "user": {"user": b"someone-else"}}[how]
+                    out.append(agent.report(req, rigp.REPORT_UNKNOWN_ENGINE, flags=0, mac="empty", encrypt=False,
+                                            engine_id=fe, boots=sb, time=stm, **ov))
+                self.open_strays = getattr(self, "open_strays", 0) + 1
             self.accept(agent.boots, agent.time)
             self.st["engine_id"] = self.engine_id
             out.append(agent.report(req, rigp.REPORT_UNKNOWN_ENGINE, flags=0, mac="empty", encrypt=False))
@@ -539,6 +551,14 @@ def gen_cfg(rng, knobs):
         # every session of this process uses the same pass phrases (with whatever digest it draws):
         # a key derived for one digest must never be reused for another
         pw, pw2 = knobs["shared_pw"].encode(), (knobs["shared_pw"] + "P").encode()
+    if auth and priv and rng.random() < knobs.get("same_octets", 0.0):
+        # the same secret for authentication and privacy (common practice), also across key types: the
+        # octets handed over as a privacy *password* equal the octets handed over as the auth *master key*.
+        # Each key must still be derived from its own octets under its own key type.
+        if pkt == "password" and akt == "master" and rng.random() < 0.7:
+            pw2 = C.password_to_key(C.MD5 if auth == "md5" else C.SHA1, pw)
+        else:
+            pw2 = pw
     return rigp.Cfg("v3", user=user, auth=auth, priv=priv, auth_kt=akt, priv_kt=pkt, auth_pw=pw, priv_pw=pw2,
                     engine_given=eg, client=cl, empty_engine=(not eg and rng.random() < 0.3))
 
@@ -554,9 +574,16 @@ def worker(job):
     nsess = knobs.get("sessions", 4)
     sessions = []
     shared_users = {}
-    for i in range(nsess):
-        cfg = gen_cfg(rng, knobs)
-        if res["cfgs"] and cfg.version == "v3" and rng.random() < knobs.get("clone_cfg_prob", 0.25):
+    preset = job.get("cfgs")   # explicit configurations (a systematic matrix) instead of drawn ones
+    for i in range(len(preset) if preset else nsess):
+        rel = None
+        if preset:
+            d = dict(preset[i])
+            rel = d.pop("_priv_octets", None)
+            cfg = rigp.Cfg.from_json(d)
+        else:
+            cfg = gen_cfg(rng, knobs)
+        if not preset and res["cfgs"] and cfg.version == "v3" and rng.random() < knobs.get("clone_cfg_prob", 0.25):
             # the same credentials (and, below, the very same User object) used against another agent
             prev = [s.cfg for s in sessions if s.cfg.version == "v3" and s.cfg.auth_kt != "localized" and s.cfg.priv_kt != "localized"]
             if prev:
@@ -566,6 +593,14 @@ def worker(job):
                 cfg = rigp.Cfg.from_json(d)
         # make_user for localized keys needs the engine id -> Sess creates agent first
         s = Sess(i, cfg, random.Random(rng.random()), knobs)
+        if rel == "auth":
+            # the octets handed over for the privacy key are exactly the octets handed over for the auth key
+            # (whatever its key type): each must still be derived under its own key type
+            a = cfg.auth_alg()
+            mk = C.password_to_key(a, cfg.auth_pw)
+            cfg.priv_pw = {"password": cfg.auth_pw, "master": mk, "localized": C.localize(a, mk, s.engine_id)}[cfg.auth_kt]
+            uk = cfg.user_keys()
+            s.agent.users = {uk.name: uk}
         try:
             if cfg.version == "v3" and cfg.auth_kt != "localized" and cfg.priv_kt != "localized":
                 key = repr(sorted((k, v) for k, v in cfg.to_json().items() if k in ("user", "auth", "priv", "auth_kt", "priv_kt", "auth_pw", "priv_pw")))
@@ -599,7 +634,7 @@ def worker(job):
             t.join()
     else:
         for i in range(job["steps"] if sessions else 0):
-            s = rng.choice(sessions)
+            s = sessions[i % len(sessions)] if job.get("round_robin") else rng.choice(sessions)
             prog.mark({"i": i, "cfg": s.cfg.key()})
             s.step(res, aspects)
             if getattr(s, "desync", False):
